@@ -648,6 +648,9 @@ func (w *L1World) opDepositTo(id uint64) {
 			return
 		}
 		seq := res.Resp().(*ophosttypes.MsgInitiateTokenDepositResponse).Sequence
+		if w.mons.C01 && !w.mons.C10 && !b.exists {
+			w.run.Fail("C01.conservation", "c01.deposit_to_nonexistent_bridge", w.trace(), "deposit accepted for bridge id %d which does not exist: %s%s sits in an escrow that belongs to no bridge (and will be found there by whoever creates bridge %d)", id, amt, denom, id)
+		}
 		if w.mons.C10 {
 			w.run.Check("C10.real_bridges_only", b.exists, "c10.deposit_to_nonexistent_bridge", w.trace(), "deposit accepted for bridge id %d which does not exist (sequence %d consumed, %s%s escrowed)", id, seq, amt, denom)
 			w.run.Check("C10.sequence_gap_free", seq == b.nextSeq, "c10.sequence", w.trace(), "bridge %d deposit returned sequence %d, expected %d", id, seq, b.nextSeq)
@@ -1001,8 +1004,15 @@ func (w *L1World) opFinalize() {
 		o = mon.Pick(w.rng, b.outputs)
 	}
 	i := w.rng.Intn(len(o.Ws))
-	submitter := w.anyUser()
-	m := o.Claim(i, submitter.String())
+	submitterStr := w.anyUser().String()
+	if w.rng.Chance(25) {
+		ps := privilegedSubmitters(w.env, b.id, o.Ws[i].To)
+		submitterStr = ps[mon.Pick(w.rng, []string{"governance module", "proposer", "challenger", "recipient", "bridge escrow", "ophost module"})]
+		if _, err := sdk.AccAddressFromBech32(submitterStr); err != nil {
+			submitterStr = w.env.L1.Gov
+		}
+	}
+	m := o.Claim(i, submitterStr)
 	variant := "valid"
 	switch w.rng.Intn(12) {
 	case 0:
